@@ -340,7 +340,7 @@ func TestC06_Long(t *testing.T) {
 			}
 			c.Case()
 			call := run.Call{API: "compile", Expr: "long:" + kind + ":" + strconv.Itoa(n)}
-			run.Watch(c, "long", call)
+			run.WatchAs(c, "long", "custom:c06-long", nil, call)
 			if msg := c06LongVerdict(kind, n); msg != "" {
 				c.Fail(t, run.Replay{Check: "long", Kind: "custom:c06-long", Calls: []run.Call{call}, Message: fmt.Sprintf("%s of %d bytes: %s", kind, n, msg)}, kind)
 				return
